@@ -12,7 +12,8 @@
   scope, allocate into a second chunk, leave the scope, deallocate, drop) for which all hypotheses hold;
   the `example`s below instantiate the theorems with it.
 -/
-import BumpProof.Lemmas.HistStep
+import BumpProof.Lemmas.HistRun
+import BumpProof.Lemmas.HistBytes3
 import BumpProof.Lemmas.HistEx
 
 set_option linter.unusedSimpArgs false
@@ -27,12 +28,33 @@ def Reachable (cfg : Cfg) (g : GState) : Prop :=
   ∃ ops : List (Op × List BaseResp), AllCovered ops ∧ RunEnvOK cfg (initG cfg) ops ∧
     runOps cfg (initG cfg) ops = .ok g
 
+/-- `Op.Covered` spelled out: every constructor is covered; three of them need their numeric arguments to be
+    values a Rust caller can supply (a `usize`; the alignment of a type; the size of a type, which is a
+    multiple of its alignment) -/
+theorem covered_iff (op : Op) : op.Covered ↔
+    match op with
+    | .newWithSize n => n < 2 ^ 64
+    | .prepareSlice _ ealign _ _ => Rs.is_power_of_two ealign = true
+    | .allocTryWith L _ _ _ _ _ => L.size % L.align = 0
+    | _ => True := by
+  cases op <;> simp [Op.Covered, Op.covered]
+
 theorem Reachable.inv {cfg : Cfg} {g : GState} (hc : CfgOK cfg) (h : Reachable cfg g) : Inv cfg g := by
   obtain ⟨ops, h1, h2, h3⟩ := h
   exact inv_reachable hc h1 h2 h3
 
 theorem reachable_init (cfg : Cfg) : Reachable cfg (initG cfg) :=
-  ⟨[], fun _ h => by cases h, trivial, rfl⟩
+  ⟨[], (fun _ h => by cases h), trivial, rfl⟩
+
+theorem Reachable.sizes {cfg : Cfg} {g : GState} (hc : CfgOK cfg) (h : Reachable cfg g) : SizesIncreasing g.s := by
+  obtain ⟨ops, h1, h2, h3⟩ := h
+  exact sizes_runOps ops _ _ (inv_init hc) (sizes_init cfg) h1 h2 h3
+
+/-- one more covered step under a correct environment -/
+theorem Reachable.step {cfg : Cfg} {g g' : GState} (h : Reachable cfg g) {op : Op} {resps : List BaseResp} {out : Out}
+    {reqs : List BaseReq} (hc : CfgOK cfg) (hcov : op.Covered) (henv : EnvOK cfg g resps)
+    (hs : step cfg g op resps = .ok (g', out, reqs)) : Inv cfg g' :=
+  inv_step hcov (h.inv hc) henv hs
 
 /-- the example history reaches a state (an arena with two chunks in use) -/
 theorem exReach7 : ∃ g, Reachable exCfg g := by
@@ -92,14 +114,52 @@ theorem reachable_pos_aligned (hc : CfgOK cfg) (h : Reachable cfg g) :
     inside the granted block, the block aligned for the header (downwards: the header itself too), and
     the chunks are pairwise disjoint -/
 theorem reachable_chunks_wellformed (hc : CfgOK cfg) (h : Reachable cfg g) :
-    (∀ i c, g.s.chunks[i]? = some c → 16 ∣ c.size ∧ cfg.hdr.size ≤ c.size ∧ c.size ≤ c.granted ∧ cfg.hdr.align ∣ c.base ∧
+    (∀ (i : Nat) (c : Chunk), g.s.chunks[i]? = some c → 16 ∣ c.size ∧ cfg.hdr.size ≤ c.size ∧ c.size ≤ c.granted ∧ cfg.hdr.align ∣ c.base ∧
       (cfg.up = false → cfg.hdr.align ∣ c.base + c.size - cfg.hdr.size)) ∧
-    (∀ i j a b, i ≠ j → g.s.chunks[i]? = some a → g.s.chunks[j]? = some b →
+    (∀ (i j : Nat) (a b : Chunk), i ≠ j → g.s.chunks[i]? = some a → g.s.chunks[j]? = some b →
       a.base + a.size ≤ b.base ∨ b.base + b.size ≤ a.base) :=
   have hi := h.inv hc
   ⟨fun i c hic => chunk_header_in_block hc hi.geom hic, hi.disj⟩
 
+/-- after every operation of every history each later chunk is strictly larger than its predecessor (hence
+    than every earlier chunk): the chunk list is sorted by size, the last chunk is the largest -/
+theorem reachable_sizesIncreasing (hc : CfgOK cfg) (h : Reachable cfg g) :
+    SizesIncreasing g.s ∧ g.s.chunks.Pairwise (fun a b => a.size < b.size) :=
+  ⟨h.sizes hc, pairwise_of_sizesIncreasing (h.sizes hc)⟩
+
+/-- NO FAULT (partial: see `Op.noFaultCovered` in Lemmas/HistNoFault3.lean — every constructor except
+    `grow` / `deallocate` / `shrink` addressed to the CLAIMED handle, with the same three numeric side
+    conditions as `Op.Covered` plus truthful hints for `onClaimed allocLayout`): from any reachable state,
+    with a base allocator that behaves correctly (`EnvOK`) and answers the request of the operation
+    (`Answered`: the pending response is large enough for the size the slow path asks for), `step`
+    never ends in an overflow / failed debug assertion (`Fault.rs`) or undefined behaviour (`Fault.ub`);
+    in particular `unreachable_unchecked` after the creation of a chunk is unreachable, every copy is in
+    bounds, `copy_nonoverlapping` never overlaps.  It succeeds or reports a contract violation of the caller. -/
+theorem reachable_noFault_partial (hc : CfgOK cfg) (h : Reachable cfg g) {op : Op} {resps : List BaseResp}
+    (hcov : op.noFaultCovered = true) (henv : EnvOK cfg g resps) (hans : Answered cfg (install g resps).s op) :
+    ∀ f, step cfg g op resps = .error f → ¬ Fault.isBug f :=
+  noFault_step hcov (h.inv hc) henv hans
+
+/-- TARGET (not proved): the same for every constructor, i.e. also for `onClaimed (grow/deallocate/shrink)`.
+    Missing there: nothing in `Inv` or `EnvOK` says that the base allocator never hands out memory at the
+    address of the static dummy chunk header (`dummyAddr`); a live block at that address would pass the
+    `is_last` test of the claimed handle.  Proved under that explicit hypothesis as
+    `Arena.Hist.noFault_onClaimed_block` (`DummyApart`). -/
+def reachable_noFault_target : Prop :=
+  ∀ (cfg : Cfg) (g : GState) (op : Op) (resps : List BaseResp), CfgOK cfg → Reachable cfg g → op.Covered →
+    EnvOK cfg g resps → Answered cfg (install g resps).s op →
+    ∀ f, step cfg g op resps = .error f → ¬ Fault.isBug f
+
 example : CfgOK exCfg := exCfg_ok
+/-- hypotheses of `reachable_noFault_partial`: the first step of the example history -/
+example : Reachable exCfg (initG exCfg) ∧ (Op.newWithSize 512).noFaultCovered = true ∧
+    EnvOK exCfg (initG exCfg) [.granted 0x10000 496] ∧
+    Answered exCfg (install (initG exCfg) [.granted 0x10000 496]).s (.newWithSize 512) := by
+  refine ⟨reachable_init _, by decide, envCheck_sound (by decide), ?_⟩
+  intro size hs
+  have : Spec.calcSize exCfg.up exCfg.hdr (Nat.max 512 exCfg.minChunk) = some 496 := by decide
+  rw [this] at hs; cases hs
+  exact ⟨_, _, rfl, by decide, by decide, by decide, by decide⟩
 example : ∃ g, Reachable exCfg g ∧ (stats exCfg g.s).allocated + (stats exCfg g.s).remaining = (stats exCfg g.s).capacity :=
   let ⟨g, hg⟩ := exReach7
   ⟨g, hg, (reachable_stats_coherent exCfg_ok hg).1⟩
@@ -162,3 +222,144 @@ example : ∃ g, Reachable exCfg g ∧ LiveOK exCfg g.s :=
   ⟨g, hg, reachable_liveOK exCfg_ok hg⟩
 
 end C01
+
+/-! # C02 — the bytes of a live allocation change only through its owner -/
+
+namespace C02
+open Arena Arena.Hist Arena.Mem Rs
+
+variable {cfg : Cfg} {g : GState}
+
+/-- across ANY step (every operation, every wrapper, zeroed or not) from ANY reachable state: every byte of
+    every block that is live before and after the step and is not the target of a `.write` is unchanged.
+    (`grow` / `shrink` / `shrink_slice` / `split` replace their block by a new ghost block, so this speaks
+    about all OTHER blocks; that their own contents are carried over is `C02.grow_realloc` etc.) -/
+theorem reachable_live_bytes (hc : CfgOK cfg) (h : Reachable cfg g) {op : Op} {resps : List BaseResp}
+    {g' : GState} {out : Out} {reqs : List BaseReq} (henv : EnvOK cfg g resps)
+    (hs : step cfg g op resps = .ok (g', out, reqs)) :
+    ∀ b ∈ g.s.live, b ∈ g'.s.live → (∀ seed, op ≠ .write b.id seed) →
+      ∀ k, k < b.size → readByte g'.s (b.addr + k) = readByte g.s (b.addr + k) :=
+  bytes_step (h.inv hc) henv hs
+
+/-- `b` stays live, and is never written, through all steps of the history -/
+def KeptThrough (cfg : Cfg) (b : Block) : GState → List (Op × List BaseResp) → Prop
+  | g, [] => b ∈ g.s.live
+  | g, (op, resps) :: rest => b ∈ g.s.live ∧ (∀ seed, op ≠ .write b.id seed) ∧
+      ∀ g' out reqs, step cfg g op resps = .ok (g', out, reqs) → KeptThrough cfg b g' rest
+
+/-- along any finite history: a block that stays live and is not written keeps its bytes, whatever else
+    happens to the arena (allocations, reallocations and deallocations of other blocks, chunk growth,
+    entering and leaving inner scopes, claiming, reserving, prepared allocations) -/
+theorem history_live_bytes : ∀ (ops : List (Op × List BaseResp)) (g g' : GState) (b : Block), Inv cfg g →
+    AllCovered ops → RunEnvOK cfg g ops → runOps cfg g ops = .ok g' → KeptThrough cfg b g ops →
+    b ∈ g'.s.live ∧ ∀ k, k < b.size → readByte g'.s (b.addr + k) = readByte g.s (b.addr + k) := by
+  intro ops
+  induction ops with
+  | nil =>
+    intro g g' b _ _ _ hr hk
+    unfold runOps at hr
+    cases hr
+    exact ⟨hk, fun _ _ => rfl⟩
+  | cons x rest ih =>
+    intro g g' b h hc he hr hk
+    obtain ⟨op, resps⟩ := x
+    obtain ⟨g1, out, reqs, hs, hrest⟩ := runOps_cons hr
+    obtain ⟨he1, he2⟩ := he
+    obtain ⟨hb, hw, hk'⟩ := hk
+    have hcov := hc (op, resps) List.mem_cons_self
+    have hk1 := hk' g1 out reqs hs
+    have hb1 : b ∈ g1.s.live := by
+      cases rest with
+      | nil => exact hk1
+      | cons y ys => exact hk1.1
+    obtain ⟨r1, r2⟩ := ih g1 g' b (inv_step hcov h he1 hs) (fun y hy => hc y (List.mem_cons_of_mem _ hy))
+      (he2 g1 out reqs hs) hrest hk1
+    refine ⟨r1, fun k hk => ?_⟩
+    rw [r2 k hk]
+    exact bytes_step h he1 hs b hb hb1 hw k hk
+
+/-- non-vacuity: a reachable state with two live blocks; writing the second one leaves the first one live -/
+example : Inv exCfg exG3 ∧ EnvOK exCfg exG3 [] := ⟨exG3_inv, envCheck_sound (by rfl)⟩
+
+end C02
+
+/-! # C05 — every chunk is returned to the base allocator exactly once and fits -/
+
+namespace C05
+open Arena Arena.Hist Rs
+
+variable {cfg : Cfg}
+
+/-- THE LEDGER of any finite history (from the creation on): the chunks ever created correspond one to one, in
+    order, to the blocks the base allocator granted — same pointer, requested with the header alignment, size in
+    use between the size requested and the size granted — and the releases made so far together with one
+    release per chunk still owned are EXACTLY (as a multiset) one release per chunk ever created: nothing is
+    released twice, nothing that was not granted is released, nothing is forgotten -/
+theorem history_ledger (hc : CfgOK cfg) {ops : List (Op × List BaseResp)} {g : GState} {log : List LogEntry}
+    (hcov : AllCovered ops) (henv : RunEnvOK cfg (initG cfg) ops) (hr : runLog cfg (initG cfg) ops = .ok (g, log)) :
+    Balanced cfg (logGrants log) (logReleases log) g.s := by
+  have := ledger_runLog ops _ _ log [] [] (inv_init hc) (balanced_init cfg) hcov henv hr
+  simpa using this
+
+/-- every `dealloc` request of the history matches an earlier grant: same pointer, same alignment, and a size
+    between the size that was requested and the size that was granted; and the number of releases plus the
+    number of chunks still owned is the number of grants -/
+theorem history_releases_match (hc : CfgOK cfg) {ops : List (Op × List BaseResp)} {g : GState} {log : List LogEntry}
+    (hcov : AllCovered ops) (henv : RunEnvOK cfg (initG cfg) ops) (hr : runLog cfg (initG cfg) ops = .ok (g, log)) :
+    (∀ q ∈ logReleases log, ∃ gr ∈ logGrants log, ∃ size, q = .dealloc gr.ptr size gr.align ∧
+        gr.reqSize ≤ size ∧ size ≤ gr.granted) ∧
+    (logReleases log).length + g.s.chunks.length = (logGrants log).length := by
+  have hb := history_ledger hc hcov henv hr
+  refine ⟨fun q hq => hb.release_matches hq, ?_⟩
+  have := hb.releases_le
+  simpa [Arena.Hist.owned] using this
+
+/-- after `drop` nothing is outstanding: every block ever granted has been released exactly once -/
+theorem history_drop_releases_all (hc : CfgOK cfg) {ops : List (Op × List BaseResp)} {resps : List BaseResp}
+    {g : GState} {log : List LogEntry} (hcov : AllCovered ops)
+    (henv : RunEnvOK cfg (initG cfg) (ops ++ [(.drop, resps)]))
+    (hr : runLog cfg (initG cfg) (ops ++ [(.drop, resps)]) = .ok (g, log)) :
+    g.s.chunks = [] ∧
+    ∃ acq : List Chunk, Matched (ChunkOfGrant cfg) acq (logGrants log) ∧
+      (logReleases log).Perm (acq.map (deallocReq cfg)) := by
+  have hcov' : AllCovered (ops ++ [(.drop, resps)]) := by
+    intro x hx
+    rcases List.mem_append.mp hx with hx | hx
+    · exact hcov x hx
+    · simp only [List.mem_singleton] at hx; subst hx; rfl
+  have ho := runLog_append_drop (cfg := cfg) ops (initG cfg) log (inv_init hc) hcov henv hr
+  have hb := history_ledger hc hcov' henv hr
+  refine ⟨?_, hb.released_all ho⟩
+  simpa [Arena.Hist.owned] using ho
+
+/-- only `drop` and `Bump::reset` release chunks: `reset_to_start`, scope exits, `reset_to`, deallocation,
+    and every other operation release none -/
+theorem only_drop_and_reset_release {g g' : GState} {op : Op} {resps : List BaseResp} {out : Out} {reqs : List BaseReq}
+    (hd : op ≠ .drop) (hr : op ≠ .reset) (hs : step cfg g op resps = .ok (g', out, reqs)) :
+    releasesOf reqs = [] :=
+  step_no_release hd hr hs
+
+/-- whatever is released was owned before the step (never a block granted in the same step, never a
+    foreign block), with the chunk's own pointer, its size in use and the header alignment -/
+theorem releases_are_owned {g g' : GState} {op : Op} {resps : List BaseResp} {out : Out} {reqs : List BaseReq}
+    (h : Inv cfg g) (hs : step cfg g op resps = .ok (g', out, reqs)) :
+    ∀ q ∈ releasesOf reqs, ∃ c ∈ g.s.chunks, q = .dealloc c.base c.size cfg.hdr.align :=
+  release_shape h hs
+
+/-- `Bump::reset` at any point of any history keeps exactly one chunk — the last one, which is the LARGEST —
+    with its position reset, releases every other chunk exactly once and requests nothing -/
+theorem reachable_reset_keeps_largest (hc : CfgOK cfg) {g g' : GState} (h : Reachable cfg g) {i : Nat}
+    (hcur : g.s.cur = .chunk i) {resps : List BaseResp} {out : Out} {reqs : List BaseReq}
+    (hs : step cfg g .reset resps = .ok (g', out, reqs)) :
+    ∃ last, g.s.chunks.getLast? = some last ∧ g'.s.chunks = [last.resetPos cfg] ∧
+      (∀ c ∈ g.s.chunks, c.size ≤ last.size) ∧ reqs.Perm (g.s.chunks.dropLast.map (deallocReq cfg)) := by
+  obtain ⟨last, e1, e2, _, e4, _⟩ := reset_step (h.inv hc) hcur hs
+  exact ⟨last, e1, e2, C05.reset_keeps_largest g.s (pairwise_of_sizesIncreasing (h.sizes hc)) e1, e4⟩
+
+/-- non-vacuity: the example history (it ends with `drop`) runs, is covered and its environment is correct -/
+example : AllCovered (exOps.take 7) ∧ exOps = exOps.take 7 ++ [(.drop, [])] ∧
+    RunEnvOK exCfg (initG exCfg) exOps ∧ ∃ g log, runLog exCfg (initG exCfg) exOps = .ok (g, log) :=
+  ⟨exOps7_covered, rfl, exOps_env, exOps_log⟩
+
+end C05
+
